@@ -56,6 +56,13 @@ class ConstructInterface(Interface):
         return out
 
     # ----------------------------------------------------------------- attributes of sub-constructs
+    def dyn_getattr(self, eng, v, attr, st):
+        if attr in ('_parsereport', '_parse', '_build', '_sizeof'):
+            # a value known (by an isinstance test) to be a Construct: a sub-construct identified by its opaque id
+            sc = VSub(t.app('oid', t.INT, v.t), 'dynamic')
+            return self.sub_attr(eng, sc, attr, st)
+        return super().dyn_getattr(eng, v, attr, st)
+
     def sub_attr(self, eng, b, attr, st):
         if isinstance(b, VParam):
             return None
@@ -159,7 +166,13 @@ class ConstructInterface(Interface):
         st.put(stream, OObject(o.cls, f))
         sub = f.get('substream')
         if isinstance(sub, VRef) and isinstance(st.get(sub), OStream):
-            havoc_object(eng, st, sub, 'rs_sub')
+            so = st.get(sub)
+            if so.model == 'adv':
+                # the sub-construct reaches the underlying stream only through RestreamedBytesIO's methods, and write() (the
+                # only one that writes) does not accept a short write silently (contract of RestreamedBytesIO.write)
+                self.havoc_adv(eng, st, sub)
+            else:
+                havoc_object(eng, st, sub, 'rs_sub')
 
     def sub_on_wrapper(self, eng, sc, stream, ctx, path, st, what):
         H, D = self.H(st)
@@ -184,8 +197,12 @@ class ConstructInterface(Interface):
         o = st.get(stream) if isinstance(stream, VRef) else None
         if isinstance(o, OObject) and o.cls == 'RestreamedBytesIO':
             return self.sub_on_wrapper(eng, sc, stream, ctx, path, st, 'parse')
+        if isinstance(stream, VDyn):
+            # a stream object supplied by the user (RestreamData with an io.BytesIO): a stream in an arbitrary state
+            stream = streams.symbolic_stream(eng, st, 'userstream', self.models.stream_mode if self.models.stream_mode in ('bytesio', 'adv') else 'bytesio')
+            o = st.get(stream)
         if not isinstance(o, OStream):
-            raise OutOfReach('sub-construct parse on %r' % (stream,))
+            raise OutOfReach('sub-construct parse on %r' % (str(stream)[:80],))
         H, D = self.H(st)
         c = self.ctx_addr(eng, ctx, st)
         out = []
@@ -221,6 +238,10 @@ class ConstructInterface(Interface):
             good.log.append(('parse', sc.ident, o, c, H, D, val, end))
             if getattr(sc, 'returns', None) == 'int':
                 good.assume(t.app('isint', t.BOOL, val))
+            if sc.label == 'dynamic':
+                # RestreamData(datafunc = a Construct): documented to produce the bytes to be re-parsed
+                good.assume(t.app('(_ is VBytes)', t.BOOL, val))
+                good.assume(t.ge(t.app('blen', t.INT, val), t.ZERO))
             out.append((good, VDyn(val)))
         if bad is not None:
             self.construct_error(eng, bad, ec)
@@ -229,8 +250,7 @@ class ConstructInterface(Interface):
                 bad.assume(t.ge(newpos, t.ZERO))
                 bad.put(stream, o.replace(pos=newpos))
             else:
-                from .builtins import havoc_object
-                havoc_object(eng, bad, stream, 'sub')
+                self.havoc_adv_failed(eng, bad, stream)
             H3, D3 = fresh('P_H', 'Heap'), fresh('P_D', 'Dom')
             self.apply_heap_outcome(eng, bad, H3, D3, c)
             out.append((bad, Raised(VExc(ec, self.exc_path(eng, bad, path, 'parse'), origin='sub-construct %s parse failed' % sc.label, explicit_path=True))))
@@ -245,6 +265,16 @@ class ConstructInterface(Interface):
         havoc_object(eng, st, stream, 'sub')
         after = st.get(stream).extra['__short'].t
         st.assume(t.implies(t.not_(before), t.not_(after)))
+
+    def havoc_adv_failed(self, eng, st, stream):
+        """a sub-construct call that RAISES on an adversarial stream: whatever short read/write happened inside is
+        accounted to that failure (it was reported), so the ghost flag 'silently accepted short io' is unchanged"""
+        from .builtins import havoc_object
+        o = st.get(stream)
+        before = o.extra['__short']
+        havoc_object(eng, st, stream, 'sub')
+        o2 = st.get(stream)
+        st.put(stream, o2.replace(extra=dict(o2.extra, __short=before)))
 
     def sub_build(self, eng, sc, obj, stream, ctx, path, st):
         o = st.get(stream) if isinstance(stream, VRef) else None
@@ -289,7 +319,10 @@ class ConstructInterface(Interface):
                 out.append((good, VDyn(ret)))
         if bad is not None:
             self.construct_error(eng, bad, ec)
-            havoc_object(eng, bad, stream, 'sub')
+            if o.model == 'adv':
+                self.havoc_adv_failed(eng, bad, stream)
+            else:
+                havoc_object(eng, bad, stream, 'sub')
             H3, D3 = fresh('B_H', 'Heap'), fresh('B_D', 'Dom')
             self.apply_heap_outcome(eng, bad, H3, D3, c)
             out.append((bad, Raised(VExc(ec, self.exc_path(eng, bad, path, 'build'), origin='sub-construct %s build failed' % sc.label, explicit_path=True))))
@@ -346,7 +379,10 @@ class ConstructInterface(Interface):
         if bad is not None:
             ec = fresh('A_exc', t.INT)
             self.construct_error(eng, bad, ec)
-            havoc_object(eng, bad, stream, 'asz', writes=False)
+            if o.model == 'adv':
+                self.havoc_adv_failed(eng, bad, stream)
+            else:
+                havoc_object(eng, bad, stream, 'asz', writes=False)
             out.append((bad, Raised(VExc(ec, self.exc_path(eng, bad, path, 'actualsize'), origin='sub-construct %s _actualsize failed' % sc.label, explicit_path=True))))
         return out
 
@@ -487,6 +523,11 @@ class ConstructInterface(Interface):
                 elif fl[0] == 'raise':
                     out.append((s2, Raised(fl[1])))
             return out
+        if cls.name in ('LazyContainer', 'LazyListContainer'):
+            # result objects of lazy parsing: their fields are the constructor arguments (real __init__ only stores them)
+            init = self.src.find('construct.core:%s.__init__' % cls.name)
+            names = [a.arg for a in init.args.args[1:]]
+            return [(st, st.alloc(OObject(cls.name, {'_' + n: v for n, v in zip(names, args)}), 'object'))]
         if cls.name == 'Container' and len(args) == 1:
             a0 = args[0]
             if isinstance(a0, VRef) and isinstance(st.get(a0), ODict) and st.get(a0).items is not None:
@@ -529,6 +570,21 @@ class ConstructInterface(Interface):
     def str_method(self, eng, recv, name, args, kws, st):
         if name == 'encode':
             return self.codec(eng, 'encode', recv, args, kws, st)
+        if recv.t is None:
+            return None
+        if name == 'split' and len(args) == 1 and isinstance(args[0], VStr) and args[0].t is not None:
+            prelude.declare_fun('split_count', [t.STR, t.STR], t.INT)
+            prelude.declare_fun('split_part', [t.STR, t.STR, t.INT], t.STR)
+            n = t.app('split_count', t.INT, recv.t, args[0].t)
+            st.assume(t.ge(n, t.ONE))
+            return [(st, VIter('seq', n=n, at=lambda i: VStr(t.app('split_part', t.STR, recv.t, args[0].t, i))))]
+        if name in ('strip', 'lower') and not args:
+            prelude.declare_fun('str_' + name, [t.STR], t.STR)
+            return [(st, VStr(t.app('str_' + name, t.STR, recv.t)))]
+        if name == 'startswith' and len(args) == 1 and isinstance(args[0], VStr) and args[0].t is not None:
+            return [(st, VBool(t.str_prefixof(args[0].t, recv.t)))]
+        if name == 'replace' and len(args) == 2:
+            return [(st, VStr(fresh('replaced', t.STR)))]
         return None
 
     def codec(self, eng, direction, recv, args, kws, st):
